@@ -137,19 +137,22 @@ class Harness:
             s.add(z3.Real('__E%d' % i) == e)
         return s.to_smt2()
 
-    def certify(self, name, lhs, rhs, relations, timeout=None, key=None, group=None, replay=None, hyps=(), depends=()):
+    def certify(self, name, lhs, rhs, relations, timeout=None, key=None, group=None, replay=None, hyps=(), depends=(), elim=(), side_hyps=None):
         """Equality modulo polynomial side relations (each relation term == 0), by untrusted sympy cofactors whose
         polynomial identity is then checked by z3 (in the worker, on the original terms) with no hypotheses.
         Non-polynomial goals and goals without certificate fall back to a direct solver query."""
         ob = Ob(name, list(hyps) + [r == 0 for r in relations], lhs == rhs, 'cert', timeout or (20 if self.quick else 60), replay, None, key, group)
         ob.deps = list(depends)
+        ob.sample = list(relations)
         d = lhs - rhs
         ob.neg_margin = z3.Or(d > z3.RealVal('1/1000'), d < -z3.RealVal('1/1000'))
         if z3.is_true(z3.simplify(lhs == rhs)):
             ob.status, ob.detail = 'unsat', 'syntactic'
             ob.res = {'result': 'unsat', 'strategy': 'simplify', 'time': 0.0}
         else:
-            ob.fut = self.pool.submit(_solve.cert_worker, self._defs_smt2([z3.simplify(d)] + list(relations)), len(relations), [], 'grevlex', ob.timeout)
+            ob.fut = self.pool.submit(_solve.cert_worker, self._defs_smt2([z3.simplify(d)] + list(relations)), len(relations),
+                                      [str(v) for v in elim], 'lex' if elim else 'grevlex', ob.timeout)
+        ob.group = side_hyps       # optional lighter hypothesis set for the "denominators are non-zero" side query
         self.obs.append(ob)
         return ob
 
@@ -189,7 +192,9 @@ class Harness:
                 ob.detail = 'rational certificate (%d cofactors, identity checked by z3 under den != 0); denominator %s proved non-zero from the hypotheses' % (r.get('ncof', 0), r['den'][:80])
                 lhs, rhs = ob.goal.children()
                 divs = divisors(lhs) + divisors(rhs)
-                ob.fut2 = self.pool.submit(_solve.solve, _smt2(ob.hyps, z3.Or([dz == 0] + [b == 0 for b in divs])),
+                for rel_ in (ob.sample or []):
+                    divs += divisors(rel_)
+                ob.fut2 = self.pool.submit(_solve.solve, _smt2(ob.group if ob.group is not None else ob.hyps, z3.Or([dz == 0] + [b == 0 for b in divs])),
                                            min(20 if self.quick else 60, ob.timeout), False)
                 ob.res = {'result': 'pending', 'strategy': 'certificate', 'time': r['time']}
                 return
